@@ -164,7 +164,8 @@ def unwindset_args(build, name, hints):
     """Per-loop unwinding bounds: hints maps a substring of the loop's function (as printed by
     goto-instrument --show-loops) to a bound; loops not matched keep the harness's #[kani::unwind]."""
     # the container model's loops run over its CAP (=8) slots whatever the harness's own bound is
-    hints = dict({"function vcoll::": 9, "as std::iter::Iterator>::next": 9} if hints is None or True else {}, **(hints or {}))
+    cap = int(build.consts.get("VCOLL_CAP", 8)) + 1
+    hints = dict({"function vcoll::": cap, "as std::iter::Iterator>::next": cap}, **(hints or {}))
     import glob
     cands = glob.glob(os.path.join(build.target, "kani", "*", "debug", "build", "ggrs", "*", "out", "*%d%s.out" % (len(name), name)))
     if not cands:
